@@ -587,6 +587,12 @@ SPELL_HINT = {
     '!Kid2 {bx: 1, kr: 1.5}': (None, 'base2'), '!Kid2 {bx: 1}': (None, 'base2'),
     '{x: 1, x: 2}': (None, 'inner'), '{x: 1, y: s, y: t}': (None, 'inner'),
     '{x: 1, [p]: 2}': (None, 'inner'), '[{x: 1, x: 1}]': (None, 'list_inner'),
+    # keys that look like format fields (messages are built from key names)
+    '{"{y}": s}': (None, 'inner'), '{"{}": 1, y: s}': (None, 'inner'),
+    '{"{0}": 1}': (None, 'inner'), '{"a{": 1, "b}": 2}': (None, 'inner'),
+    '{"%s": 1, y: s}': (None, 'inner'), '{"%(x)s": 1}': (None, 'inner'),
+    '{x: 1, "{y}": s}': (None, 'inner'), '{sx: 1, "{sp}": 2}': (None, 'polygon'),
+    '{"${HOST}": 1, sp: 2}': (None, 'shape'), '{"{:d}": 1}': (None, 'base2'),
 }
 KEY_NAME = {'a': 'a', 'b_c': 'b_c', 'b-c': 'b-c', 'zz': 'zz', '1': '1',
             'true': 'true', '""': ''}
